@@ -215,6 +215,9 @@ func (l *List) M__setitem__(key, value Object) (Object, error) {
 			return nil, err
 		}
 		if step == 1 {
+			if stop < start {
+				stop = start
+			}
 			// Make a copy of the tail
 			tailSlice := l.Items[stop:]
 			tail := make([]Object, len(tailSlice))
@@ -233,10 +236,8 @@ func (l *List) M__setitem__(key, value Object) (Object, error) {
 			if len(newItems) != slicelength {
 				return nil, ExceptionNewf(ValueError, "attempt to assign sequence of size %d to extended slice of size %d", len(newItems), slicelength)
 			}
-			j := 0
-			for i := start; i < stop; i += step {
+			for i, j := start, 0; j < slicelength; i, j = i+step, j+1 {
 				l.Items[i] = newItems[j]
-				j++
 			}
 		}
 	} else {
@@ -257,17 +258,23 @@ func (a *List) DelItem(i int) {
 // Removes items from a list
 func (a *List) M__delitem__(key Object) (Object, error) {
 	if slice, ok := key.(*Slice); ok {
-		start, stop, step, _, err := slice.GetIndices(len(a.Items))
+		start, _, step, slicelength, err := slice.GetIndices(len(a.Items))
 		if err != nil {
 			return nil, err
 		}
+		if slicelength <= 0 {
+			return None, nil
+		}
+		if step < 0 {
+			// Delete the same items lowest index first
+			start, step = start+step*(slicelength-1), -step
+		}
 		if step == 1 {
-			a.Items = append(a.Items[:start], a.Items[stop:]...)
+			a.Items = append(a.Items[:start], a.Items[start+slicelength:]...)
 		} else {
-			j := 0
-			for i := start; i < stop; i += step {
+			// j items have already gone from below the next one
+			for i, j := start, 0; j < slicelength; i, j = i+step, j+1 {
 				a.DelItem(i - j)
-				j++
 			}
 		}
 	} else {
